@@ -32,21 +32,28 @@ from ..fw import Case
 from ..gen import fields_C01 as GEN
 
 REQUIRED = [
+    "C01_roundtripB_partial",
     "C01_roundtrip_partial",
-    "C01_names_kept_partial",
+    "C01_names_keptB_partial",
     "accepts_spec",
+    "acceptsB_spec",
     "C01_numeric_scalar_aux_counterexample",
     "C01_inserted_axis_counterexample",
     "C01_pinned_name_counterexample",
     "C01_old_inserted_axis_counterexample",
     "C01_old_eq_new_on_wf",
+    "C01_cell_methods_parse_write",
+    "C01_cell_methods_old_code_counterexample",
+    "C01_dan_bounds_counterexample",
 ]
 BUDGET = {"quick": 1600, "thorough": 24000}
 RULE = (
     "fields/domains from the seeded generator (harness/gen/fields.py + fields_C01.py): 0-4 data axes incl. size-1 and "
     "unlimited, extra size-1 axes, dimension / auxiliary (N-d, string, scalar) coordinates, bounds, climatology, cell "
-    "measures (also external), field ancillaries, cell methods, grid mappings, formula terms, ragged compression, "
-    "domains, example fields 0-7; x options (6 formats, string, compress 0-9, shuffle, fletcher32, endian, "
+    "measures (also external), field ancillaries, cell methods (every combination of within / where / over, intervals "
+    "with and without units, comments), grid mappings (one or two, with equal / different / no datum), parametric vertical "
+    "coordinates with N-d domain ancillaries with and without bounds in every axis order, coordinate references in every "
+    "insertion order, ragged compression, domains, example fields 0-7; x options (6 formats, string, compress 0-9, shuffle, fletcher32, endian, "
     "coordinates, hdf5_chunks, external file; `scalar` is not a parameter of cfdm.write, it is an input of the model "
     "only). non-trivial = the construct has at least one metadata construct or cell method; distinct = distinct "
     "(stream, generator spec, options)"
@@ -54,9 +61,14 @@ RULE = (
 ASSUMPTIONS = [
     "array contents are compared by identity (hash of dtype, values, mask); storage options, data types and bytes on "
     "disk are covered by the oracle on every case, not by the model",
-    "the model covers fields with dimension/auxiliary coordinates, bounds, cell measures, field ancillaries and cell "
-    "methods; coordinate references, domain ancillaries, domains, compression, geometries and constructs sharing one "
-    "netCDF variable are compared by the oracle only (tag outside-model)",
+    "the model covers fields with dimension/auxiliary coordinates, bounds, cell measures, field ancillaries, cell "
+    "methods (the cell_methods attribute word by word), domain ancillaries and coordinate references (grid_mapping and "
+    "formula_terms attributes incl. the bounds variable's, datums, computed_standard_name); domains, compression, "
+    "geometries, non-name parameters of a formula-terms reference, two equal grid mappings, masked string data and "
+    "constructs sharing one netCDF variable (other than a domain ancillary equal to a coordinate) are compared by the "
+    "oracle only (tag outside-model)",
+    "the round-trip theorem covers the class WFFieldB (decidable; the driver's C01.class sub-command reports membership) "
+    "with NoSharedDan; outside it the model has no authority and the oracle alone decides",
     "netCDF names contain no '/' (groups are C11's) and only characters from [A-Za-z0-9_.- ]",
     "constructs that give a 0-d string variable next to another 0-d variable are written with string=False: such a "
     "NETCDF4 file with 0-d variable-length strings can crash netCDF4-python/HDF5 (segmentation fault, reproduced with "
@@ -80,8 +92,30 @@ def cfdm():
 _scratch = None
 
 
+def _tables_text():
+    """lean/Cfdm/Generated/CoordRefTables.lean from NetCDFRead.cf_coordinate_reference_coordinates /
+    cf_datum_parameters of the cfdm under test (static tables: the tie is regeneration)."""
+    from cfdm.read_write.netcdf import NetCDFRead
+    r = NetCDFRead(cfdm().implementation())
+    table = r.cf_coordinate_reference_coordinates()
+    datum = r.cf_datum_parameters()
+    q = lambda x: json.dumps(str(x))
+    rows = ",\n   ".join("(" + q(k) + ", [" + ", ".join(q(x) for x in v) + "])" for k, v in table.items())
+    return (
+        "/- GENERATED by harness/corr/C01.py:pre() from /repo/cfdm/read_write/netcdf/netcdfread.py\n"
+        "   (NetCDFRead.cf_coordinate_reference_coordinates, NetCDFRead.cf_datum_parameters).  Do not edit. -/\n"
+        "namespace Cfdm.Generated\n\n"
+        "/-- canonical name of a coordinate reference -> standard names of the coordinates it applies to. -/\n"
+        "def coordRefCoordinates : List (String × List String) :=\n  [" + rows + "]\n\n"
+        "/-- Datum-defining parameter names. -/\n"
+        "def datumParameters : List String :=\n  [" + ", ".join(q(x) for x in datum) + "]\n\n"
+        "end Cfdm.Generated\n"
+    )
+
+
 def pre():
     scratch()
+    fw.write_if_changed(fw.LEAN / "Cfdm" / "Generated" / "CoordRefTables.lean", _tables_text())
 
 
 def scratch():
@@ -183,12 +217,32 @@ def mix_id(d, n):
     return int(hashlib.sha1(f"{d[0]}|{n}".encode()).hexdigest()[:12], 16), d[1]
 
 
+LITERAL_PROPS = ("standard_name", "grid_mapping_name")
+
+
 def ptok(k, v):
     """Token of a property value; `standard_name` is kept literally (it is the default netCDF
-    variable name)."""
-    if k == "standard_name" and isinstance(v, str) and SAFE.match(v) and v not in ("_", "n"):
+    variable name), and so is `grid_mapping_name` (the reader looks it up in a table)."""
+    if k in LITERAL_PROPS and isinstance(v, str) and SAFE.match(v) and v not in ("_", "n"):
         return v.replace(" ", "·")
     return tok(v)
+
+
+def pct(s):
+    """Percent-encoding of an arbitrary word (cell method words and qualifier values)."""
+    out = []
+    for ch in s:
+        if ch.isascii() and (ch.isalnum() or ch in "_.-"):
+            out.append(ch)
+        elif ord(ch) < 256:
+            out.append("%%%02X" % ord(ch))
+        else:
+            raise Outside("non-latin-1-word")
+    return "".join(out)
+
+
+def unpct(s):
+    return re.sub(r"%([0-9A-Fa-f]{2})", lambda m: chr(int(m.group(1), 16)), s)
 
 
 def props_tokens(p):
@@ -223,11 +277,13 @@ def show_arr(d):
 # --------------------------------------------------------------------------
 # abstraction of live cfdm objects (public accessors only)
 # --------------------------------------------------------------------------
-CTYPES = {"dimension_coordinate": "dim", "auxiliary_coordinate": "aux", "cell_measure": "msr", "field_ancillary": "fan"}
+CTYPES = {"dimension_coordinate": "dim", "auxiliary_coordinate": "aux", "cell_measure": "msr", "field_ancillary": "fan",
+          "domain_ancillary": "dan"}
 QUAL_ORDER = ["within", "where", "over", "interval", "comment"]
 
 
 def abs_cell_method(cm):
+    """Qualifier values as the strings `CellMethod.__str__` writes (an interval is `str(Data)`)."""
     quals = []
     q = cm.qualifiers()
     for k in QUAL_ORDER:
@@ -235,19 +291,30 @@ def abs_cell_method(cm):
             continue
         if k == "interval":
             for d in q[k]:
-                quals.append(("interval", tok(d)))
+                quals.append(("interval", str(d)))
         else:
-            quals.append((k, tok(str(q[k]))))
+            quals.append((k, str(q[k])))
     for k in q:
         if k not in QUAL_ORDER:
             raise Outside("cell-method-qualifier")
+    for k, v in quals:
+        w = v.split(" ")
+        if "" in w or any(re.search(r"[()\s]", x) for x in w) or (k != "comment" and k != "interval" and len(w) != 1) \
+                or (k == "interval" and len(w) > 2):
+            # not a sequence of words: the string model does not apply
+            raise Outside("cell-method-qualifier-words")
     return dict(axes=[str(a) for a in cm.get_axes(())], method=cm.get_method(None), quals=quals)
 
 
 def abs_data(d):
     if d is None:
         return None
-    return data_id(d.array)
+    a = d.array
+    if np.ma.is_masked(a) and np.ma.getdata(a).dtype.kind in "SUO":
+        # a masked string is written as an empty string, which netCDF4 (the independent reader of
+        # the file) does not mask: the identities of the two arrays cannot be compared
+        raise Outside("masked-string-data")
+    return data_id(a)
 
 
 def abs_construct(c, axes):
@@ -260,8 +327,8 @@ def abs_construct(c, axes):
     if d is not None and d.get_compression_type():
         raise Outside("compressed-construct")
     out["data"] = abs_data(d)
-    if t in ("dim", "aux"):
-        if c.get_geometry(None) is not None or c.get_interior_ring(None) is not None:
+    if t in ("dim", "aux", "dan"):
+        if t != "dan" and (c.get_geometry(None) is not None or c.get_interior_ring(None) is not None):
             raise Outside("geometry")
         b = c.get_bounds(None)
         if b is not None:
@@ -272,13 +339,42 @@ def abs_construct(c, axes):
                                  data=mix_id(abs_data(bd), int(bd.shape[-1])),
                                  nverts=int(bd.shape[-1]), props=props_tokens(b.properties()))
         try:
-            out["clim"] = bool(c.is_climatology())
+            out["clim"] = bool(c.is_climatology()) if t != "dan" else False
         except Exception:
             out["clim"] = False
     if t == "msr":
         out["measure"] = c.get_measure(None)
         out["ext"] = bool(c.nc_get_external())
     return out
+
+
+def abs_ref(f, r, coord_keys, dan_keys):
+    """A coordinate reference; raises Outside for what the model leaves out."""
+    cc = r.coordinate_conversion
+    params = dict(cc.parameters())
+    datum = dict(r.datum.parameters())
+    if any(v is None for v in params.values()) or any(v is None for v in datum.values()):
+        raise Outside("reference-parameter-none")
+    is_ft = bool(params.get("standard_name", False))
+    is_gm = bool(params.get("grid_mapping_name", False))
+    if is_ft and is_gm:
+        raise Outside("reference-both-formula-terms-and-grid-mapping")
+    for k in ("standard_name", "grid_mapping_name"):
+        if k in params and not (isinstance(params[k], str) and params[k] and SAFE.match(params[k])):
+            raise Outside("reference-name-parameter")
+    if is_ft and any(k not in ("standard_name", "computed_standard_name") for k in params):
+        # written as scalar variables by _write_scalar_data: not modelled
+        raise Outside("formula-terms-reference-with-parameters")
+    coords = sorted(r.coordinates())
+    if any(k not in coord_keys for k in coords):
+        raise Outside("reference-coordinate-key-dangling")
+    terms = list(cc.domain_ancillaries().items())
+    if any(k is not None and k not in dan_keys for _, k in terms):
+        raise Outside("reference-term-key-dangling")
+    if getattr(r.datum, "nc_get_variable", lambda d=None: None)(None) is not None:
+        raise Outside("datum-ncvar")
+    return dict(ncvar=r.nc_get_variable(None), coords=coords, params=props_tokens(params), datum=props_tokens(datum),
+                terms=[(str(t), k) for t, k in terms])
 
 
 def abstract_field(f):
@@ -289,13 +385,11 @@ def abstract_field(f):
         raise Outside("field-without-data")
     if f.data.get_compression_type():
         raise Outside("compression")
-    if f.coordinate_references(todict=True):
-        raise Outside("coordinate-reference")
     da = f.constructs.data_axes()
     P = props_tokens(f.properties())
     P.pop("Conventions", None)
     out = dict(nc=f.nc_get_variable(None), P=P, D=abs_data(f.data),
-               DA=list(f.get_data_axes()), A=[], C=[], M=[])
+               DA=list(f.get_data_axes()), A=[], C=[], M=[], R=[])
     for k, a in f.domain_axes(todict=True).items():
         if a.get_size(None) is None:
             raise Outside("axis-without-size")
@@ -309,6 +403,19 @@ def abstract_field(f):
         out["C"].append(e)
     for k, cm in f.cell_methods(todict=True).items():
         out["M"].append(abs_cell_method(cm))
+    coord_keys = set(f.coordinates(todict=True))
+    dan_keys = set(f.domain_ancillaries(todict=True))
+    refs = f.coordinate_references(todict=True)
+    for k, r in refs.items():
+        e = abs_ref(f, r, coord_keys, dan_keys)
+        e["key"] = k
+        out["R"].append(e)
+    gms = [json.dumps([e["params"], e["datum"], e["coords"]], sort_keys=True) for e in out["R"] if "grid_mapping_name" in e["params"]]
+    if len(set(gms)) != len(gms):
+        raise Outside("equal-grid-mappings-share-a-variable")
+    used = [k for e in out["R"] for _, k in e["terms"] if k is not None]
+    if len(set(used)) != len(used):
+        raise Outside("domain-ancillary-used-by-two-terms")
     return out
 
 
@@ -323,9 +430,18 @@ def show_cms(ms):
         return "n"
     out = []
     for m in ms:
-        q = "_" if not m["quals"] else "|".join(f"{k}~{v}" for k, v in m["quals"])
+        q = "_" if not m["quals"] else "|".join(f"{k}~{pct(v)}" for k, v in m["quals"])
         out.append("^".join([show_names(m["axes"]), _name(m["method"]), q]))
     return "&".join(out)
+
+
+def show_terms(ts):
+    return "n" if not ts else "+".join(f"{_name(t)}:{_name(k)}" for t, k in ts)
+
+
+def show_refs(rs):
+    return ",".join(";".join([_name(r["key"]), _name(r["ncvar"]), show_names(r["coords"]), show_props(r["params"]),
+                              show_props(r["datum"]), show_terms(r["terms"])]) for r in rs)
 
 
 def field_tokens(a):
@@ -334,74 +450,41 @@ def field_tokens(a):
                            show_bounds(c["bounds"]), str(int(c["clim"])), _name(c["measure"]), str(int(c["ext"])),
                            show_props(c["props"])]) for c in a["C"])
     return (f"nc={_name(a['nc'])} P={show_props(a['P'])} D={show_arr(a['D'])} DA={show_names(a['DA'])} "
-            f"A=[{A}] C=[{C}] M={show_cms(a['M'])}")
+            f"A=[{A}] C=[{C}] M={show_cms(a['M'])} R=[{show_refs(a['R'])}]")
 
 
 # --------------------------------------------------------------------------
 # abstraction of a file, netCDF4 only
 # --------------------------------------------------------------------------
-def parse_cell_methods(s):
-    """The harness's own parser of a CF cell_methods string -> list of dicts."""
-    s = s.replace("(", " ( ").replace(")", " ) ")
+def cell_method_words(s):
+    """The words of a `cell_methods` attribute: the reader's two substitutions, then `split()`."""
+    s = re.sub(r"\((?=[^\s])", "( ", s)
+    s = re.sub(r"(?<=[^\s])\)", " )", s)
+    return s.split()
+
+
+def parse_x(s):
+    """`term: value value term: value` or a sole word (CF attributes formula_terms / grid_mapping)
+    -> list of (key, [values]); None when the string has neither form."""
     w = s.split()
+    if len(w) == 1 and not w[0].endswith(":"):
+        return [(w[0], [])]
     out = []
-    i = 0
-    while i < len(w):
-        axes = []
-        while i < len(w) and w[i].endswith(":") and w[i] not in ("interval:", "comment:"):
-            axes.append(w[i][:-1])
-            i += 1
-        method = None
-        if i < len(w) and w[i] != "(":
-            method = w[i]
-            i += 1
-        quals = []
-        while i < len(w) and w[i] in ("within", "where", "over"):
-            quals.append((w[i], tok(w[i + 1])))
-            i += 2
-        if i < len(w) and w[i] == "(":
-            i += 1
-            body = []
-            while i < len(w) and w[i] != ")":
-                body.append(w[i])
-                i += 1
-            i += 1
-            if body and body[0] not in ("interval:", "comment:"):
-                body = ["comment:"] + body
-            j = 0
-            comment = None
-            while j < len(body):
-                if body[j] == "interval:":
-                    val = body[j + 1]
-                    units = None
-                    if j + 2 < len(body) and body[j + 2] not in ("interval:", "comment:"):
-                        units = body[j + 2]
-                        j += 3
-                    else:
-                        j += 2
-                    try:
-                        num = float(val)
-                    except ValueError:
-                        num = val
-                    quals.append(("interval", "v" + _h(json.dumps(["d", norm_val(num), str(units)], sort_keys=True))))
-                elif body[j] == "comment:":
-                    k = j + 1
-                    words = []
-                    while k < len(body) and body[k] not in ("interval:",):
-                        words.append(body[k])
-                        k += 1
-                    comment = " ".join(words)
-                    j = k
-                else:
-                    j += 1
-            if comment is not None:
-                quals.append(("comment", tok(comment)))
-        out.append(dict(axes=axes, method=method, quals=quals))
+    for x in w:
+        if x.endswith(":"):
+            out.append((x[:-1], []))
+        elif not out:
+            return None
+        else:
+            out[-1][1].append(x)
+    if any(not v for _, v in out):
+        return None
     return out
 
 
-REF_ATTRS = ("bounds", "climatology", "coordinates", "cell_measures", "ancillary_variables", "cell_methods")
-OUTSIDE_ATTRS = ("formula_terms", "grid_mapping", "geometry", "nodes", "node_count", "part_node_count", "interior_ring",
+REF_ATTRS = ("bounds", "climatology", "coordinates", "cell_measures", "ancillary_variables", "cell_methods",
+             "formula_terms", "grid_mapping")
+OUTSIDE_ATTRS = ("geometry", "nodes", "node_count", "part_node_count", "interior_ring",
                  "compress", "sample_dimension", "instance_dimension", "dimensions", "coordinate_interpolation", "mesh")
 
 
@@ -449,7 +532,7 @@ def abstract_file(path):
                        attrs={k: ptok(k, x) for k, x in attrs.items() if k not in REF_ATTRS},
                        bounds=attrs.get("bounds"), clim=attrs.get("climatology"),
                        coords=str(attrs.get("coordinates", "")).split(),
-                       measures=[], anc=str(attrs.get("ancillary_variables", "")).split(), cms=[])
+                       measures=[], anc=str(attrs.get("ancillary_variables", "")).split(), cms=[], ft=[], gm=[])
             if "cell_measures" in attrs:
                 w = str(attrs["cell_measures"]).split()
                 if len(w) % 2 or not all(x.endswith(":") for x in w[0::2]):
@@ -457,16 +540,46 @@ def abstract_file(path):
                 else:
                     var["measures"] = [(w[i][:-1], w[i + 1]) for i in range(0, len(w), 2)]
             if "cell_methods" in attrs:
-                var["cms"] = parse_cell_methods(str(attrs["cell_methods"]))
+                var["cms"] = cell_method_words(str(attrs["cell_methods"]))
+            if "formula_terms" in attrs:
+                x = parse_x(str(attrs["formula_terms"]))
+                if x is None or any(len(v) != 1 for _, v in x) or len({t for t, _ in x}) != len(x):
+                    outside = outside or "formula_terms-format"
+                else:
+                    var["ft"] = [(t, v[0]) for t, v in x]
+            if "grid_mapping" in attrs:
+                x = parse_x(str(attrs["grid_mapping"]))
+                if x is None:
+                    outside = outside or "grid_mapping-format"
+                else:
+                    var["gm"] = [(t, list(v)) for t, v in x]
             V.append(var)
         sizes = {name: len(d) for name, d in nc.dimensions.items()}
         byname = {v["name"]: v for v in V}
         done = set()
+        # bounds variables: named by a bounds / climatology attribute, or by the formula_terms of a
+        # bounds variable for a term whose variable it is not
+        bnames = []
         for v in list(V):
-            for b in (v["bounds"], v["clim"]):
-                if b in byname and b not in done and byname[b]["dims"]:
-                    done.add(b)
-                    byname[b]["data"] = mix_id(byname[b]["data"], sizes.get(byname[b]["dims"][-1], 0))
+            bnames += [v["bounds"], v["clim"]]
+        for v in list(V):
+            for b in (v["bounds"],):
+                if b in byname and byname[b]["ft"]:
+                    own = dict(v["ft"])
+                    bnames += [n for t, n in byname[b]["ft"] if own.get(t) != n]
+        for b in bnames:
+            if b in byname and b not in done and byname[b]["dims"]:
+                done.add(b)
+                byname[b]["data"] = mix_id(byname[b]["data"], sizes.get(byname[b]["dims"][-1], 0))
+        # grid mapping variables carry no data
+        for v in list(V):
+            for g, _ in v["gm"]:
+                if g in byname and not byname[g]["dims"]:
+                    byname[g]["data"] = None
+                    byname[g]["is_str"] = False
+        for v in V:
+            if v["bounds"] in byname and v["ft"] and not byname[v["bounds"]]["ft"]:
+                outside = outside or "bounds-variable-without-formula_terms"
         D = []
         for name, d in nc.dimensions.items():
             if name in strlen and name not in used_other:
@@ -489,14 +602,24 @@ def abstract_file(path):
         nc.close()
 
 
+def show_words(ws):
+    return "n" if not ws else "+".join(pct(w) for w in ws)
+
+
+def show_gm(gm):
+    return "n" if not gm else "&".join(_name(g) if not cs else _name(g) + "^" + show_names(cs) for g, cs in gm)
+
+
 def file_tokens(a):
     D = ",".join(f"{_name(d['name'])}:{d['size']}:{int(d['unl'])}" for d in a["D"])
     vs = []
     for v in a["V"]:
         ms = "n" if not v["measures"] else "+".join(f"{_name(m)}:{_name(x)}" for m, x in v["measures"])
+        ft = "n" if not v["ft"] else "+".join(f"{_name(t)}:{_name(x)}" for t, x in v["ft"])
         vs.append(";".join([_name(v["name"]), show_names(v["dims"]), str(int(v["is_str"])),
                             "_" if v["data"] is None else str(v["data"][0]), show_props(v["attrs"]), _name(v["bounds"]),
-                            _name(v["clim"]), show_names(v["coords"]), ms, show_names(v["anc"]), show_cms(v["cms"])]))
+                            _name(v["clim"]), show_names(v["coords"]), ms, show_names(v["anc"]), show_words(v["cms"]),
+                            ft, show_gm(v["gm"])]))
     return f"D=[{D}] V=[{','.join(vs)}] G={show_props(a['G'])} E={show_names(a['E'])}"
 
 
@@ -524,7 +647,7 @@ def _props(s):
 def _quals(s):
     if s == "_":
         return []
-    return [(dec(t.split("~")[0]), t.split("~")[1]) for t in s.split("|")]
+    return [(dec(t.split("~")[0]), unpct(t.split("~")[1])) for t in s.split("|")]
 
 
 def _cms(s):
@@ -550,11 +673,13 @@ def parse_file(s):
         D.append(dict(name=dec(n), size=int(size), unl=u == "1"))
     V = []
     for t in _body(kv["V"]):
-        n, dims, st, d, at, b, cl, co, ms, an, cm = t.split(";")
+        n, dims, st, d, at, b, cl, co, ms, an, cm, ft, gm = t.split(";")
         V.append(dict(name=dec(n), dims=_names(dims), is_str=st == "1", data=None if d == "_" else int(d), attrs=_props(at),
                       bounds=dec(b), clim=dec(cl), coords=_names(co),
                       measures=[] if ms == "n" else [tuple(dec(y) for y in x.split(":")) for x in ms.split("+")],
-                      anc=_names(an), cms=_cms(cm)))
+                      anc=_names(an), cms=[] if cm == "n" else [unpct(w) for w in cm.split("+")],
+                      ft=[] if ft == "n" else [tuple(dec(y) for y in x.split(":")) for x in ft.split("+")],
+                      gm=[] if gm == "n" else [(dec(x.split("^")[0]), _names(x.split("^")[1]) if "^" in x else []) for x in gm.split("&")]))
     return dict(D=D, V=V, G=_props(kv["G"]), E=_names(kv["E"]))
 
 
@@ -574,7 +699,12 @@ def parse_field(s):
             bb = dict(ncvar=dec(bv), ncdim=dec(bd), data=(int(ba.split(":")[0]), ba.split(":")[1] == "1"), nverts=int(bn), props=_props(bp))
         Cs.append(dict(key=dec(k), type=ty, ncvar=dec(v), data=None if da == "_" else (int(da.split(":")[0]), da.split(":")[1] == "1"),
                        axes=_names(ax), bounds=bb, clim=cl == "1", measure=dec(m), ext=ex == "1", props=_props(p)))
-    return dict(nc=dec(kv["nc"]), P=_props(kv["P"]), D=(int(d[0]), d[1] == "1"), DA=_names(kv["DA"]), A=A, C=Cs, M=_cms(kv["M"]))
+    R = []
+    for t in _body(kv.get("R", "[]")):
+        k, v, cs, ps, ds, ts = t.split(";")
+        R.append(dict(key=dec(k), ncvar=dec(v), coords=_names(cs), params=_props(ps), datum=_props(ds),
+                      terms=[] if ts == "n" else [tuple(dec(y) for y in x.split(":")) for x in ts.split("+")]))
+    return dict(nc=dec(kv["nc"]), P=_props(kv["P"]), D=(int(d[0]), d[1] == "1"), DA=_names(kv["DA"]), A=A, C=Cs, M=_cms(kv["M"]), R=R)
 
 
 # --------------------------------------------------------------------------
@@ -591,15 +721,25 @@ def canon_file(a, ren=None):
                   r(v["bounds"]) if v["bounds"] else None, r(v["clim"]) if v["clim"] else None,
                   sorted(r(x) for x in v["coords"]), sorted([m, r(x)] for m, x in v["measures"]),
                   sorted(r(x) for x in v["anc"]),
-                  [[[r(x) for x in m["axes"]], m["method"], [list(q) for q in m["quals"]]] for m in v["cms"]]])
+                  [_ren_word(w, r) for w in v["cms"]],
+                  sorted([t, r(x)] for t, x in v["ft"]),
+                  [[r(g), sorted(r(x) for x in cs)] for g, cs in v["gm"]]])
     V.sort(key=lambda x: json.dumps(x, sort_keys=True, default=str))
     return dict(D=D, V=V, G=sorted(a["G"].items()), E=sorted(r(x) for x in a["E"]))
+
+
+def _ren_word(w, r):
+    """An axis word `name:` of a cell_methods attribute under the renaming."""
+    if w.endswith(":") and w not in ("interval:", "comment:"):
+        return r(w[:-1]) + ":"
+    return w
 
 
 def var_signature(v):
     did = v["data"][0] if isinstance(v["data"], tuple) else v["data"]
     return json.dumps([len(v["dims"]), v["is_str"], did, sorted(v["attrs"].items()), bool(v["bounds"]), bool(v["clim"]),
-                       len(v["coords"]), len(v["measures"]), len(v["anc"]), len(v["cms"])], sort_keys=True)
+                       len(v["coords"]), len(v["measures"]), len(v["anc"]), len(v["cms"]), sorted(t for t, _ in v["ft"]),
+                       [len(cs) for _, cs in v["gm"]]], sort_keys=True)
 
 
 def match_files(model, real, pinned):
@@ -671,7 +811,13 @@ def canon_field(a):
                   c["clim"], c["measure"], c["ext"], sorted(c["props"].items())])
     C.sort(key=lambda x: json.dumps(x, sort_keys=True, default=str))
     M = [[[ax.get(x, x) for x in m["axes"]], m["method"], [list(q) for q in m["quals"]]] for m in a["M"]]
-    return dict(nc=a["nc"], P=sorted(a["P"].items()), D=list(a["D"]), DA=[r(x) for x in a["DA"]], A=A, C=C, M=M)
+    kv = {c["key"]: [c["type"], c["ncvar"]] for c in a["C"]}
+    R = []
+    for x in a.get("R", []):
+        R.append([x["ncvar"], sorted(json.dumps(kv.get(k, ["?", k])) for k in set(x["coords"])), sorted(x["params"].items()),
+                  sorted(x["datum"].items()), sorted([t, kv.get(k, ["?", k])[1] if k is not None else None] for t, k in x["terms"])])
+    R.sort(key=lambda x: json.dumps(x, sort_keys=True, default=str))
+    return dict(nc=a["nc"], P=sorted(a["P"].items()), D=list(a["D"]), DA=[r(x) for x in a["DA"]], A=A, C=C, M=M, R=R)
 
 
 # --------------------------------------------------------------------------
@@ -886,6 +1032,9 @@ def pinned_names(a):
             for k in ("ncvar", "ncdim"):
                 if c["bounds"][k]:
                     out.add(c["bounds"][k])
+    for x in a.get("R", []):
+        if x["ncvar"]:
+            out.add(x["ncvar"])
     return out
 
 
@@ -997,12 +1146,16 @@ def agree(case):
         # cfdm.read raised: the model's reader has no exceptions; the oracle of the sibling
         # write case reports the failure
         return True
-    fields = [] if m == "none" else [canon_field(parse_field(x)) for x in m.split(" ## ")]
     real = json.loads(i)
-    a = json.loads(json.dumps(fields, sort_keys=True, default=str))
-    if a == real:
-        return True
-    case.extra = _first_diff(a, real)
+    first = None
+    for pred in m.split(" %%OLD%% "):
+        # the prediction for the reader with the proposed patches, then (when different) for the reader as it is
+        fields = [] if pred == "none" else [canon_field(parse_field(x)) for x in pred.split(" ## ")]
+        a = json.loads(json.dumps(fields, sort_keys=True, default=str))
+        if a == real:
+            return True
+        first = first or _first_diff(a, real)
+    case.extra = first
     return False
 
 
@@ -1315,6 +1468,10 @@ CHAIN = [
     ("numeric_scalar_aux", GEN.numeric_scalar_aux_keys, "numeric-scalar-auxiliary-coordinate-read-as-dimension-coordinate"),
     ("reserved_props", GEN.reserved_props, "property-named-like-a-reference-attribute"),
     ("size1_vector_props", GEN.size1_vector_props, "size-1-vector-property-read-as-scalar"),
+    ("cm_unitless_interval", GEN.cm_unitless_interval, "cell-method-interval-without-units-followed-by-interval-or-comment"),
+    ("dan_bounds", GEN.dan_bounds_unencodable, "domain-ancillary-bounds-not-named-by-bounds-formula-terms"),
+    ("scalar_parametric", GEN.scalar_parametric,
+     lambda d: "scalar-parametric-vertical-coordinate-read-raises-indexerror" if d.startswith("cfdm.read raised IndexError") else None),
     ("cm_unspanned", GEN.cm_unspanned, "equals-compares-cell-method-axis-without-constructs-by-key"),
     ("cm_free_name_clash", GEN.cm_free_name_clash, "cell-method-over-a-name-that-is-also-a-netcdf-name-read-as-axis"),
     ("bounds_ncdim", GEN.bounds_ncdim_clash, "bounds-dimension-name-replaced-by-existing-dimension-of-same-size"),
